@@ -756,3 +756,55 @@ impl VerifAutoAlloc {
         }
     }
 }
+
+/// What the job layer told the autoalloc service about a worker (`server/state.rs`: `process_worker_new`,
+/// `process_worker_lost`).
+#[derive(Debug, Clone, PartialEq, Eq)]
+pub enum VerifWorkerNotice {
+    Connected { worker: u32, allocation: String },
+    Lost { worker: u32, allocation: String, reason: LostWorkerReason },
+    Other,
+}
+
+/// Receiving end of a service whose messages are handed to the caller instead of the autoalloc process.
+pub struct VerifNoticeReceiver(crate::common::rpc::RpcReceiver<AutoAllocMessage>);
+
+impl VerifNoticeReceiver {
+    pub fn drain(&mut self) -> Vec<VerifWorkerNotice> {
+        let mut out = Vec::new();
+        while let Ok(m) = self.0.try_recv() {
+            out.push(match m {
+                AutoAllocMessage::WorkerConnected {
+                    id, manager_info, ..
+                } => VerifWorkerNotice::Connected {
+                    worker: id.as_num(),
+                    allocation: manager_info.allocation_id,
+                },
+                AutoAllocMessage::WorkerLost(id, manager_info, details) => VerifWorkerNotice::Lost {
+                    worker: id.as_num(),
+                    allocation: manager_info.allocation_id,
+                    reason: details.reason,
+                },
+                _ => VerifWorkerNotice::Other,
+            });
+        }
+        out
+    }
+}
+
+/// An `AutoAllocService` for `Senders` whose messages can be inspected (the simulated cluster of the harness).
+pub fn recording_service() -> (
+    crate::server::autoalloc::AutoAllocService,
+    VerifNoticeReceiver,
+) {
+    let (service, rx) = crate::server::autoalloc::verif_alloc_service();
+    (service, VerifNoticeReceiver(rx))
+}
+
+/// The `extra` entry a worker started inside an allocation sends (`WORKER_EXTRA_MANAGER_KEY`).
+pub fn manager_extra(allocation_id: &str) -> (String, String) {
+    (
+        crate::common::manager::info::WORKER_EXTRA_MANAGER_KEY.to_string(),
+        serde_json::to_string(&VerifAutoAlloc::manager_info(allocation_id)).unwrap(),
+    )
+}
